@@ -1,6 +1,17 @@
-(* C08 — property theorems (statements only; proofs live in Acme.C08.Proofs...). *)
+(* C08 — property theorems (statements only; proofs live in Acme.C08.Proofs...).
+
+   Model: coq/C08/DbcAst.v (document), DbcLex.v (scanner.go), DbcParse.v (parser.go), DbcWrite.v
+   (writer.go).  [ud] is unicode.IsDigit outside ASCII (a parameter; the theorems hold for every
+   [ud] that is false on ASCII), [fmt]/[prs] are the strconv float oracles with the two laws
+   [oracle_ok] (round trip and 'f' shape), [hex] is the number mode.  [wf_file] is "expressible in
+   the DBC grammar" made precise (coq/C08/ProofsSections.v, ProofsFile.v): identifiers
+   [A-Za-z][A-Za-z0-9_-]* that scanText classifies as identifiers, quote- and NUL-free strings,
+   blank-free attribute names, uint32 / int64 ranges, finite floats, NS_ symbols from the format's
+   list, at least one receiver / access node / range.  [norm_file] fills the writer's header
+   defaults and reads numeric attribute literals back ("compared by value"). *)
 From Coq Require Import NArith List.
-From Acme.C08 Require Import DbcAst Chars DbcLex DbcParse DbcWrite Expr ProofsLex ProofsLexPrint.
+From Acme.C08 Require Import DbcAst Chars DbcLex DbcParse DbcWrite Expr ProofsLex ProofsLexPrint ProofsFormat
+  ProofsSections ProofsFile ProofsPok ProofsRoundTrip Examples.
 Import ListNotations.
 
 (* every scan consumes a prefix of the remaining text *)
@@ -11,8 +22,69 @@ Print Assumptions scan_consumes_prefix.
 (* lex_print_tokens: for every list of writer pieces (tokens and blanks) in which every token is
    well formed for its kind and is followed by a blank or punctuation that cannot be glued to it
    ([pok]), the parser's view of the rendered text is exactly the printed tokens, then end of
-   input — for every extension [ud] of the digit class outside ASCII. *)
+   input. *)
 Theorem lex_print_tokens : forall ud, ud_ok ud -> forall ps, pok ps [] ->
   tokens_of_text ud (render ps) = Some (toks_of ps ++ [eof_tok]).
 Proof. exact ProofsLexPrint.lex_print_tokens. Qed.
 Print Assumptions lex_print_tokens.
+
+(* the writer's pieces of an expressible document satisfy that condition *)
+Theorem write_lexable : forall fmt prs hex, oracle_ok fmt prs -> forall f, wf_file f -> pok (w_file fmt hex f) [].
+Proof. exact ProofsPok.pok_file. Qed.
+Print Assumptions write_lexable.
+
+(* token level: the section loop over the printed tokens returns the document's entries *)
+Theorem parse_write_tokens : forall fmt prs hex, oracle_ok fmt prs -> forall f, wf_file f ->
+  exists items,
+    parse_loop prs hex (S (length (toks_of (w_file fmt hex f) ++ [eof_tok]))) fl0 (toks_of (w_file fmt hex f) ++ [eof_tok]) = ROk items /\
+    assemble items = norm_file fmt hex f.
+Proof. exact ProofsFile.parse_write_tokens. Qed.
+Print Assumptions parse_write_tokens.
+
+(* parse_write (all 19 sections, both number modes): parsing the written text of an expressible
+   document succeeds and returns the document with header defaults filled in and numeric
+   attribute literals in read-back form *)
+Theorem parse_write : forall ud fmt prs hex, ud_ok ud -> oracle_ok fmt prs -> forall f, wf_file f ->
+  parse ud prs hex (write fmt hex f) = OOk (norm_file fmt hex f).
+Proof. exact ProofsRoundTrip.parse_write. Qed.
+Print Assumptions parse_write.
+
+(* ... which is a document equivalent to the original (equal after [norm_file], idempotent) *)
+Theorem parse_write_equiv : forall ud fmt prs hex, ud_ok ud -> oracle_ok fmt prs -> forall f, wf_file f ->
+  exists f', parse ud prs hex (write fmt hex f) = OOk f' /\ equiv fmt hex f' f.
+Proof. exact ProofsRoundTrip.parse_write_equiv. Qed.
+Print Assumptions parse_write_equiv.
+
+(* second half of the property, full statement: for every accepted text, writing the parsed
+   document and parsing it again yields an equivalent document *)
+Definition parse_write_parse_statement : Prop :=
+  forall ud fmt prs hex, ud_ok ud -> oracle_ok fmt prs ->
+  (forall v b, prs v = Some b -> fin b = true) ->
+  forall t f, parse ud prs hex t = OOk f ->
+  exists f', parse ud prs hex (write fmt hex f) = OOk f' /\ equiv fmt hex f' f.
+
+(* proved part: it holds for every accepted text whose parsed document is expressible ([wf_file]);
+   what is missing is parse_output_expressible (parse t = OOk f -> wf_file f, with identifier
+   well-formedness generalised to non-ASCII digits) — see props/C08/NOTES.md *)
+Theorem parse_write_parse_partial : forall ud fmt prs hex, ud_ok ud -> oracle_ok fmt prs ->
+  forall t f, parse ud prs hex t = OOk f -> wf_file f ->
+  exists f', parse ud prs hex (write fmt hex f) = OOk f' /\ equiv fmt hex f' f.
+Proof. intros ud fmt prs hex Hud Hor t f _ Hwf. exact (ProofsRoundTrip.parse_write_equiv ud fmt prs hex Hud Hor f Hwf). Qed.
+Print Assumptions parse_write_parse_partial.
+
+(* the hypotheses are satisfiable: an oracle pair with the two laws, a document over several
+   sections (multiplexing, extended mux, every attribute value form) that is expressible, and its
+   round trip evaluated in both number modes *)
+Theorem oracle_laws_satisfiable : oracle_ok toy_fmt toy_prs.
+Proof. exact Examples.toy_oracle_ok. Qed.
+Print Assumptions oracle_laws_satisfiable.
+
+Theorem expressible_satisfiable : wf_file sample_file.
+Proof. exact Examples.sample_file_wf. Qed.
+Print Assumptions expressible_satisfiable.
+
+Theorem sample_round_trip :
+  parse no_ud toy_prs false (write toy_fmt false sample_file) = OOk (norm_file toy_fmt false sample_file)
+  /\ parse no_ud toy_prs true (write toy_fmt true sample_file) = OOk (norm_file toy_fmt true sample_file).
+Proof. exact Examples.sample_round_trip. Qed.
+Print Assumptions sample_round_trip.
